@@ -54,7 +54,7 @@ CLAIMED = {
          "Structural necessary conditions for stability and failure atomicity: only stable sorts are applied, nothing is output unless the comparator reported no error after sorting, every failing comparator exit sets the latch, keys are swapped with values. Sortedness and permutation are not decided.",
          "trusts go/ssa"),
  "C11": ("def-use rule that big numbers pass a normaliser before becoming Elvish values (NORM, GOFN-NORM), taint-to-sink rule for zero divisors of big-number operations (EXACT-ZERO)",
-         "Structural necessary conditions for canonical form and for 'no exact result raises an exception': no *big.Int/*big.Rat is output or stored in a container un-normalised, goFn.Call normalises every builtin return value, every zero-panicking big-number operation reached by script numbers is guarded by a non-zero test or audited. Numeric correctness is not decided.",
+         "Structural necessary conditions for canonical form and for 'no exact result raises an exception': no *big.Int/*big.Rat is output or stored in a container un-normalised, goFn.Call normalises every builtin return value, every zero-panicking big-number operation reached by script numbers (also through a math/big receiver the number was written into) is guarded by a non-zero test, follows from a library contract (Rat.Denom, Int.Exp) or is audited; the audit entry for `/` is conditional on finding the comparison of every argument with exact 0 before the numbers are unified. Numeric correctness is not decided.",
          "trusts go/ssa; EXACT-ZERO shares the audit table of C17"),
  "C24": ("def-use check that history keys come from bbolt's NextSequence of the same transaction (SEQ-SOURCE), encoder/decoder sibling agreement on fixed-width big-endian keys (KEY-ORDER), path check that every operation, listings included, runs at most one transaction (ONE-TX)",
          "Structural necessary conditions: sequence numbers come only from the bucket's counter (never set by hand, never derived from existing keys), and every key a cursor compares is an 8-byte big-endian integer produced and read by one codec pair, so byte order equals numeric order; a listing is one cursor walk over one snapshot. Search and score semantics are not decided.",
